@@ -130,7 +130,7 @@ CLAIMED["C09"] = {
             "functions that mirror WaitForUserRhythm's expect_bell/on_bell_ring; plus: the polling loop has no time-out. "
             "Tied to the code by closed-loop sessions under the virtual clock with adversarial human timing; oracle counts "
             "human strikes from the simulated server's log at every Wheatley strike.",
-    "design_ref": "DESIGN.md section 3, C09", "note": TB + TB_GLUER + " Statement-level interleaving inside the arming loop is not "
+    "design_ref": "DESIGN.md section 3, C09", "note": TBR + TB_GLUE + " Statement-level interleaving inside the arming loop is not "
             "covered (granularity H).",
     "technique": "Coq proof: inductive invariant over all histories of an abstract band driving the model's bookkeeping functions + correspondence",
 }
@@ -141,7 +141,7 @@ CLAIMED["C11"] = {
             "5040 rows at gap 1 take exactly the requested time. Tied to the code by Wheatley-alone sessions over towers "
             "4..16, speeds 60..600 (and infeasible ones), gaps, up to 40 rows, second touches after a human-bent first "
             "touch; oracle: the closed form in exact rationals, 1e-6 s.",
-    "design_ref": "DESIGN.md section 3, C11", "note": TB + TB_GLUER + " The composition of the per-tick lemmas with the system model's "
+    "design_ref": "DESIGN.md section 3, C11", "note": TBR + TB_GLUE + " The composition of the per-tick lemmas with the system model's "
             "main loop is by the recurrence theorem, not by a theorem about Sys.run (partial).",
     "technique": "Coq proof over Q (field/lra, induction on blows) + correspondence with closed-form oracle",
 }
@@ -192,7 +192,7 @@ CLAIMED["C10"] = {
             "time-out and ends when the bell has rung (C09). Tied to the code by closed-loop bands (punctual, lagging, "
             "erratic, early, absent), size changes during touches, both rhythms; oracle: no crash, every row completed, "
             "the bell after an awaited human within one interval (+30 ms), keep-going on schedule.",
-    "design_ref": "DESIGN.md section 3, C10", "note": TB + TB_GLUER + " Liveness under real OS scheduling is not modelled; the "
+    "design_ref": "DESIGN.md section 3, C10", "note": TBR + TB_GLUE + " Liveness under real OS scheduling is not modelled; the "
             "bounded-lag statement is checked by the sessions, not proved (partial). Statement-level races are findings.",
     "technique": "Coq proof (failure-source classification + system invariant) + correspondence",
 }
@@ -219,7 +219,7 @@ CLAIMED["C19"] = {
             "no further tick starts; roll call on entering the ringing loop only; exit only from the idle loop, in "
             "server mode, after > 300 s. Tied to the code by server-mode sessions and by the REAL handlers on real "
             "threads under a deterministic statement scheduler (sys.settrace + cooperative lock).",
-    "design_ref": "DESIGN.md section 3, C19", "note": TB + TB_GLUER + " python-socketio's dispatch threading and CPython atomicity below "
+    "design_ref": "DESIGN.md section 3, C19", "note": TBR + TB_GLUE + " python-socketio's dispatch threading and CPython atomicity below "
             "a statement are not modelled.",
     "technique": "Coq proof (complete enumeration of lock-respecting merges by vm_compute; algebra over Q) + thread-scheduler correspondence",
 }
